@@ -27,3 +27,8 @@ def run(ctx):
     ctx.replay(walks, common.wrap(preamble), observe, ordered=False, label="walks")
     conv = common.conv_behaviours(rc['out'], q, ctx.seed)
     ctx.replay(conv, common.wrap(preamble), observe, ordered=True, label="conv")
+    import tmr_trace
+    q_plans = [(16, 3000, 'C08_trace16.cfg', 2)]
+    t_plans = [(m, n * 4, c, k * 6) for (m, n, c, k) in q_plans]
+    ctx.assumptions.append("direction code -> spec: traces recorded from the real timer manager under random tick injection at every lock / unlock / callback boundary (PRNG driver, pool 3 and 16) are validated event by event by TLC against CoTmrPreTrace (scalar state equal after every event, pool conservation as invariant); which free slot the implementation hands out is left open")
+    tmr_trace.run(ctx, q_plans if q else t_plans)
